@@ -259,3 +259,78 @@ func showLin(m map[string]int64) string {
 	}
 	return s
 }
+
+// ruleDashAppend — R-DASHAPPEND (C10). The JSON Pointer token "-" is read as
+// index -1, and RFC 6902 says it names no existing element: test and remove on
+// it must fail, only add may use it. In the list patch the exit that is taken
+// for index -1 may therefore commit only where the hunk removes nothing:
+// the guard facts at every success return that is control-dependent on
+// `index == -1` must bound len(removeValues) by 0.
+func ruleDashAppend(w *World, r *Report, pf *patchFamily) {
+	const rule = "R-DASHAPPEND"
+	var fn *ssa.Function
+	for _, f := range pf.methods {
+		if f.Signature.Recv() == nil {
+			continue
+		}
+		if _, isSlice := f.Signature.Recv().Type().Underlying().(*types.Slice); !isSlice {
+			continue
+		}
+		isList := false
+		allInstrs(f, func(in ssa.Instruction) {
+			if ta, ok := in.(*ssa.TypeAssert); ok && typeName(ta.AssertedType) == "PathIndex" {
+				isList = true
+			}
+		})
+		if isList {
+			fn = f
+		}
+	}
+	if fn == nil {
+		r.Ok(rule, pf.tag+":list-patch", "-", "no list patch implementation located: no claim (not decided)")
+		return
+	}
+	old := pf.roleParam(fn, "oldValues")
+	if old == nil {
+		r.Ok(rule, fnName(fn)+":append-exit", w.Pos(fn.Pos()), "the removed-values parameter was not identified: no claim (not decided)")
+		return
+	}
+	fs := NewFacts(fn, closedEnums(w, pf.pkg))
+	n := 0
+	for _, b := range fn.Blocks {
+		cond, tE, fE, ok := branchEdges(b)
+		if !ok {
+			continue
+		}
+		bo, ok := cond.(*ssa.BinOp)
+		if !ok || (bo.Op != token.EQL && bo.Op != token.NEQ) {
+			continue
+		}
+		k, isK := constInt(bo.Y)
+		if !isK || k != -1 {
+			continue
+		}
+		edge := tE
+		if bo.Op == token.NEQ {
+			edge = fE
+		}
+		for _, ret := range returnsOf(fn) {
+			if !isNilErrReturn(ret) || !(edgeDominates(edge, ret.Block()) || edge.To() == ret.Block()) {
+				continue
+			}
+			n++
+			st, reach := fs.At(ret.Block())
+			okB := !reach
+			if reach {
+				f := st.get(term{v: old, isLen: true})
+				okB = f.maxVal() <= 0
+			}
+			r.Check(okB, rule, fmt.Sprintf("%s:append-exit#%d", fnName(fn), n), w.Pos(ret.Pos()),
+				"the exit taken for index -1 (the pointer token `-`) commits only where the hunk removes nothing",
+				"the exit taken for index -1 (the pointer token `-`) can commit although the hunk removes values: a test/remove pair addressed to `-` is accepted without comparing anything, where RFC 6902 fails")
+		}
+	}
+	if n == 0 {
+		r.Ok(rule, fnName(fn)+":append-exit", w.Pos(fn.Pos()), "no success return is tied to index -1 in the list patch: nothing to decide")
+	}
+}
